@@ -860,7 +860,7 @@ func main() {
 			raceNote = "off: " + note
 		}
 	}
-	run.Imports = []string{"Model.Ring", "Model.RingLin"}
+	run.Imports = []string{"Model.Ring", "Model.PktLin", "Model.RingLin"}
 	run.CheckFn = "RingLin.check"
 	run.DiagFn = "RingLin.diag"
 	run.CaseType = "RingLin.case"
@@ -871,7 +871,11 @@ func main() {
 		"B: concurrent histories (2..8 goroutines, <= 15 calls, blocking and non-blocking, one Close by a goroutine or " +
 		"by the watchdog), checked inside Coq for the existence of a linearization w.r.t. the bounded FIFO; " +
 		"non-trivial = overlapping calls and >= 1 transfer. C: sequential op lists on a pktRing; non-trivial = a " +
-		"batch refill and >= 2 packets handed out"
+		"batch refill and >= 2 packets handed out. D: concurrent pktRing histories (ring pre-filled to 64 (3/4) or 58..63, " +
+		"writer 0 parks in a blocking Write, 1..4 further writers call Write while it is parked, one reader starts " +
+		"afterwards, optional Close, final drain), linearizability against the pktRing FIFO spec + content oracle " +
+		"(accepted = delivered, each once) decided in Coq; non-trivial = a blocking Write on the full ring overlapped " +
+		"other calls and was accepted"
 	run.Extra("race_detector", raceNote)
 	rng := vgen.NewRand(run.Seed)
 
@@ -961,6 +965,59 @@ func main() {
 			continue
 		}
 		emitHist(run, s.h, s.recs, s.init, s.lateClose)
+	}
+
+	// D. concurrent pktRing histories
+	nd := run.Count(40, 3000)
+	type pslot struct {
+		h         pkHist
+		recs      []pkRec
+		fill      []uint64
+		lateClose bool
+		viol      *violation
+		want      bool
+		id        int
+	}
+	pbase := base + nh
+	pslots := make([]*pslot, nd)
+	for i := range pslots {
+		pslots[i] = &pslot{h: genPktHist(rng.Fork(uint64(13000000 + i))), id: pbase + i, want: run.WantID(pbase + i)}
+	}
+	for _, procs := range []int{0, 1, 2, 4} {
+		p := procs
+		if p == 0 {
+			p = defProcs
+		}
+		runtime.GOMAXPROCS(p)
+		sem := make(chan struct{}, 4)
+		var wg sync.WaitGroup
+		for _, s := range pslots {
+			if s.h.procs != procs || !s.want {
+				continue
+			}
+			wg.Add(1)
+			sem <- struct{}{}
+			go func(s *pslot) {
+				defer wg.Done()
+				defer func() { <-sem }()
+				s.recs, s.fill, s.lateClose, s.viol = runPktHist(s.h)
+			}(s)
+		}
+		wg.Wait()
+	}
+	runtime.GOMAXPROCS(defProcs)
+	for _, s := range pslots {
+		if !s.want {
+			run.Skip()
+			continue
+		}
+		if s.viol != nil {
+			run.Violate(s.id, s.viol.what, s.viol.desc, s.viol.tag)
+			run.Add("history-incomplete", vgen.App("RingLin.CHist", "0%nat", "None", "[]"), fmt.Sprint(s.id), false,
+				map[string]any{"note": "pktRing history did not complete, see violations"})
+			continue
+		}
+		emitPktHist(run, s.h, s.recs, s.fill, s.lateClose)
 	}
 	run.Finish()
 }
